@@ -242,7 +242,7 @@ package transport
 //@   at call! Read#1 assert #the-implementation-is-asked-for-the-requested-size recv == t.Impl && arg0 == n
 //@   after call Read#1 set implOut = result.0
 //@   after call Read#1 set implErr = result.1
-//@   at return assert #what-the-implementation-returned-is-returned-unchanged result.0 == implOut && result.1 == implErr
+//@   at return assert [C16 C06] #what-the-implementation-returned-is-returned-unchanged result.0 == implOut && result.1 == implErr
 //@ func (*Transport).ReadN [C16]
 //@   at call! read#1 assert #the-requested-size-is-passed-on arg0 == n
 
